@@ -51,19 +51,21 @@ class AlarmTimeout(Exception):
 
 
 def with_alarm(seconds, fn, *a, **kw):
-    """run fn under a SIGALRM watchdog (shards are single-threaded); raises AlarmTimeout"""
+    """run fn under a watchdog counting the CPU time of this process (ITIMER_PROF), not wall-clock time: a loaded
+    machine cannot make it fire, a non-terminating call does (shards are single-threaded); raises AlarmTimeout.
+    A call that blocks without burning CPU is left to the per-shard wall-clock watchdog (inconclusive)."""
     import signal
 
     def _h(signum, frame):
         raise AlarmTimeout()
 
-    old = signal.signal(signal.SIGALRM, _h)
-    signal.alarm(seconds)
+    old = signal.signal(signal.SIGPROF, _h)
+    signal.setitimer(signal.ITIMER_PROF, seconds)
     try:
         return fn(*a, **kw)
     finally:
-        signal.alarm(0)
-        signal.signal(signal.SIGALRM, old)
+        signal.setitimer(signal.ITIMER_PROF, 0)
+        signal.signal(signal.SIGPROF, old)
 
 
 def h64(obj):
